@@ -9,6 +9,7 @@
 (*            clearing on, and - for 3k3y - the watermark/key area masked    *)
 (*            (so that the output is served back without a second            *)
 (*            transformation)                                                *)
+(*   Race     n runs of make-iso started together with one absent target     *)
 (***************************************************************************)
 EXTENDS Tools, EncryptedIso, Json, TLC
 
@@ -29,7 +30,13 @@ TraceDecrypt ==
          o == [e.obs EXCEPT !.imageAtTarget = @ /\ content, !.stdoutIsImage = @ /\ content]
      IN RunOK(e.inputOk, e.target, o)
 
-TraceNext == TraceMakeIso \/ TraceDecrypt
+(* several runs started together with the same, not yet existing target: a target is written by the one run that created *)
+(* it - the others find it existing and refuse (none of them writes into a file another run has just created)              *)
+TraceRace ==
+  /\ IsEvent("Race")
+  /\ LET e == Trace[l] IN e.succeeded = 1 /\ e.crashed = 0 /\ e.targetIsImage
+
+TraceNext == TraceMakeIso \/ TraceDecrypt \/ TraceRace
 HwmConstraint == TLCSet(1, IF TLCGet(1) < l - 1 THEN l - 1 ELSE TLCGet(1))
 TraceAccepted == PrintT(<<"HWM", TLCGet(1)>>) /\ TLCGet(1) = Len(Trace)
 =============================================================================
